@@ -179,6 +179,32 @@ def run(ctx, rep):
             rep.undecided('D1.fixed', fn, fn.node.name, 'how conditioned columns are filled was not recognised', construct='conditioned branch')
     gauss.report_order(ctx, rep, 'D2.align', ['_get_normal_samples', '_get_conditional_distribution'], floor=8)
     gauss.report_marginal_index(ctx, rep, 'D2.align', ['_transform_to_normal', '_get_normal_samples', '_get_conditional_distribution', 'sample'])
+    # the labelled vector of normal scores is the single ROW that _transform_to_normal returns for the conditions: one integer subscript of its
+    # (rows x columns) result.  A second one takes one score, which pd.Series broadcasts over every conditioned column.
+    gns = gauss.gm_method(ctx, '_get_normal_samples')
+    for c_ in [c for c in walk_no_nested(gns.node) if isinstance(c, ast.Call) and prog.resolve(gns.module, c.func) == 'pandas.Series' and c.args and kwarg(c, 'index', 1) is not None]:
+        e_, depth, line = c_.args[0], 0, c_.lineno
+        for _ in range(8):
+            if isinstance(e_, ast.Subscript) and isinstance(const_value(e_.slice), int):
+                depth += 1
+                e_ = e_.value
+            elif isinstance(e_, ast.Name):
+                defs = sorted([a for a in walk_no_nested(gns.node) if isinstance(a, ast.Assign) and len(a.targets) == 1 and isinstance(a.targets[0], ast.Name)
+                               and a.targets[0].id == e_.id and a.lineno < line], key=lambda a: a.lineno)
+                if not defs:
+                    break
+                e_, line = defs[-1].value, defs[-1].lineno
+            else:
+                break
+        if isinstance(e_, ast.Call) and is_self_attr(e_.func, gns.self_name, '_transform_to_normal'):
+            cons = 'normal scores of the conditions: one row'
+            if depth == 1:
+                rep.ok('D2.align', gns, c_, 'row 0 of the transformed conditions, labelled with the conditioned columns', construct=cons)
+            elif depth >= 2:
+                rep.bad('D2.align', gns, c_, f'`{short(c_.args[0], 40)}` is one element of the transformed conditions ({depth} integer subscripts of a rows x columns result): '
+                        'pd.Series broadcasts that single normal score over every conditioned column', construct=cons)
+            else:
+                rep.undecided('D2.align', gns, c_, 'the whole (rows x columns) result is labelled: how it becomes one vector is not derived', construct=cons)
     # D3
     cd = gauss.gm_method(ctx, '_get_conditional_distribution')
     ba = BlockAlg(ctx, cd.params[1])
